@@ -168,6 +168,7 @@ def qr(t, mode='reduced'):
     R = _obj((k, n))
     qs = []
     used_rows = set()
+    rotated = set()
     for j in range(n):
         col = [M[i, j] for i in range(m)]
         if len(qs) < k:
@@ -188,13 +189,33 @@ def qr(t, mode='reduced'):
             _size_guard(n2)
             if _is0(n2):
                 # (structurally) dependent column: R_jj = 0, Q column = any unit vector orthogonal to the others
+                # (Gram-Schmidt orthogonalises the later columns against it, so any unit vector orthogonal to the
+                #  previous q's is a valid choice; rows that are structurally zero in M are preferred)
                 free = [i for i in range(m) if all(_is0(q[i]) for q in qs) and i not in used_rows]
-                if not free or any(not _is0(M[free[0], jj]) for jj in range(n)):
+                free.sort(key=lambda i: sum(0 if _is0(M[i, jj]) else 1 for jj in range(n)))
+                if free:
+                    q = [0] * m
+                    q[free[0]] = 1
+                    used_rows.add(free[0])
+                    qs.append(q)
+                    continue
+                # no free row: rotate a previous q that lives on exactly two rows which no other q touches: (u, v) -> (v, -u)
+                done = False
+                for ci, qc in enumerate(qs):
+                    sup = [i for i in range(m) if not _is0(qc[i])]
+                    if len(sup) != 2 or ci in rotated:
+                        continue
+                    if any(not _is0(qo[i]) for oi, qo in enumerate(qs) if oi != ci for i in sup):
+                        continue
+                    q = [0] * m
+                    q[sup[0]] = qc[sup[1]]
+                    q[sup[1]] = -qc[sup[0]]
+                    rotated.add(ci)
+                    qs.append(q)
+                    done = True
+                    break
+                if not done:
                     unsupported('rank-deficient qr input outside the model')
-                q = [0] * m
-                q[free[0]] = 1
-                used_rows.add(free[0])
-                qs.append(q)
                 continue
             rho = A.sqrt(n2, assume_pos=ASSUME_FULL_RANK)
             if _is0(rho):
